@@ -27,6 +27,14 @@ import (
 
 func defaultCloser() error { return nil }
 
+// isNilPointer tells whether data holds a typed nil pointer: such a value is not the nil
+// interface, but neither its methods nor its pointee may be used.
+func isNilPointer(data interface{}) bool {
+	v := reflect.ValueOf(data)
+
+	return v.Kind() == reflect.Ptr && v.IsNil()
+}
+
 type byteStreamOpt func(opts *byteStreamOpts)
 
 // ClosesStream when the bytestream consumer or producer is finished
@@ -58,9 +66,6 @@ func ByteStreamConsumer(opts ...byteStreamOpt) Consumer {
 		if reader == nil {
 			return errors.New("ByteStreamConsumer requires a reader") // early exit
 		}
-		if data == nil {
-			return errors.New("nil destination for ByteStreamConsumer")
-		}
 
 		closer := defaultCloser
 		if vals.Close {
@@ -71,6 +76,13 @@ func ByteStreamConsumer(opts ...byteStreamOpt) Consumer {
 		defer func() {
 			_ = closer()
 		}()
+
+		if data == nil {
+			return errors.New("nil destination for ByteStreamConsumer")
+		}
+		if isNilPointer(data) {
+			return fmt.Errorf("nil pointer destination (%T) for ByteStreamConsumer", data)
+		}
 
 		if readerFrom, isReaderFrom := data.(io.ReaderFrom); isReaderFrom {
 			_, err := readerFrom.ReadFrom(reader)
@@ -152,9 +164,6 @@ func ByteStreamProducer(opts ...byteStreamOpt) Producer {
 		if writer == nil {
 			return errors.New("ByteStreamProducer requires a writer") // early exit
 		}
-		if data == nil {
-			return errors.New("nil data for ByteStreamProducer")
-		}
 
 		closer := defaultCloser
 		if vals.Close {
@@ -165,6 +174,13 @@ func ByteStreamProducer(opts ...byteStreamOpt) Producer {
 		defer func() {
 			_ = closer()
 		}()
+
+		if data == nil {
+			return errors.New("nil data for ByteStreamProducer")
+		}
+		if isNilPointer(data) {
+			return fmt.Errorf("nil pointer data (%T) for ByteStreamProducer", data)
+		}
 
 		if rc, isDataCloser := data.(io.ReadCloser); isDataCloser {
 			defer rc.Close()
